@@ -60,19 +60,21 @@ type Ev struct {
 }
 
 type Req struct {
-	Seq    int
-	Pkg    string
-	Mode   string `json:",omitempty"`
-	Entry  int
-	In     []byte
-	Hist   [][]byte `json:",omitempty"`
-	Memo   bool
-	Size   int    `json:",omitempty"`
-	U      string `json:",omitempty"`
-	Pretty bool   `json:",omitempty"`
-	Stdout bool   `json:",omitempty"`
-	NoExec bool   `json:",omitempty"`
-	Shared bool   `json:",omitempty"` // initialise with option values shared by all instances of the package
+	Seq      int
+	Pkg      string
+	Mode     string `json:",omitempty"`
+	Entry    int
+	In       []byte
+	Hist     [][]byte `json:",omitempty"`
+	Memo     bool
+	Size     int    `json:",omitempty"`
+	U        string `json:",omitempty"`
+	Pretty   bool   `json:",omitempty"`
+	Stdout   bool   `json:",omitempty"`
+	NoExec   bool   `json:",omitempty"`
+	Shared   bool   `json:",omitempty"` // initialise with option values shared by all instances of the package
+	PrintRaw bool   `json:",omitempty"`
+	Print    bool   `json:",omitempty"` // conc mode: capture the process's standard output, report its byte histogram
 	// conc mode
 	Conc []Req `json:",omitempty"`
 	Gor  int   `json:",omitempty"`
@@ -99,9 +101,10 @@ type Res struct {
 	NRunes  int
 	Hist    []Res
 	// conc mode
-	Overlap int
-	Calls   int
-	Results []map[string]int
+	Overlap    int
+	Calls      int
+	Results    []map[string]int
+	StdoutHist map[string]int
 	// set by the engine
 	Fatal string // the child process died while processing this request
 	Lost  bool   // no result (child died earlier and this request was not re-run)
